@@ -397,3 +397,23 @@ mod test {
         }
     }
 }
+
+#[cfg(toml_verif)]
+pub(crate) mod verif {
+    //! Add-only forwarders to file-private tables for `crate::verif_hooks`
+    use super::*;
+    use winnow::stream::ContainsToken as _;
+
+    pub(crate) fn class_digit(b: u8) -> bool {
+        DIGIT.contains_token(b)
+    }
+    pub(crate) fn class_digit1_9(b: u8) -> bool {
+        DIGIT1_9.contains_token(b)
+    }
+    pub(crate) fn class_digit0_7(b: u8) -> bool {
+        DIGIT0_7.contains_token(b)
+    }
+    pub(crate) fn class_digit0_1(b: u8) -> bool {
+        DIGIT0_1.contains_token(b)
+    }
+}
